@@ -80,10 +80,20 @@ func crashSig(stderr string) string {
 	return "?:" + normMsg(msg)
 }
 
-// hangSite names the innermost scriggo frame of the first scriggo goroutine of a dump.
+// hangSite names the innermost scriggo frame of the running scriggo goroutine of
+// a dump (of the first one if all are parked).
 func hangSite(dump string) string {
-	lines := strings.Split(dump, "\n")
-	return scriggoFrame(lines, 0)
+	blocks := strings.Split(dump, "\n\n")
+	// prefer a goroutine that is running: it is the one that does not terminate
+	for _, b := range blocks {
+		gs := parseStacks(b)
+		if len(gs) == 1 && !gs[0].Parked() {
+			if f := scriggoFrame(strings.Split(b, "\n"), 0); f != "?" {
+				return f
+			}
+		}
+	}
+	return scriggoFrame(strings.Split(dump, "\n"), 0)
 }
 
 // raceSig classifies a race report by the two conflicting accesses: the first
